@@ -15,6 +15,7 @@ import (
 	"math"
 	"math/rand"
 	"sort"
+	"time"
 
 	"mosn.io/api"
 	v2 "mosn.io/mosn/pkg/config/v2"
@@ -345,6 +346,7 @@ func c06WRR(c *lab.Ctx) {
 		}
 	}
 	c06WRRHealth(c)
+	c06WRRSlowStart(c)
 }
 
 // c06WRRHealth: the same bound while the health of hosts changes WITHOUT a host-set update (health checks flip flags on the
@@ -476,5 +478,86 @@ func c06WRRHealth(c *lab.Ctx) {
 			h.ClearHealthFlag(api.FAILED_ACTIVE_HC)
 		}
 		c.Eval(1)
+	}
+}
+
+// c06WRRSlowStart: effective weights under slow start. The window is 100 hours and the run takes seconds, so the time factor of
+// a host that just became healthy is far below min_weight_percent and its effective weight is weight x min_weight_percent for
+// the whole run (no dependence on the wall clock); hosts that never had a health transition count with their full weight.
+func c06WRRSlowStart(c *lab.Ctx) {
+	rng := c.Rand("wrr-slowstart")
+	nCfg := c.Pick(120, 1200)
+	for ci := 0; ci < nCfg; ci++ {
+		n := 2 + rng.Intn(6)
+		minPct := []float64{0.1, 0.25, 0.5}[rng.Intn(3)]
+		ws := make([]uint32, n)
+		cold := make([]bool, n)
+		eff := make([]float64, n)
+		for i := range ws {
+			ws[i] = uint32(rng.PickInt(1, 2, 3, 5, 9, 10, 1+rng.Intn(40)))
+			cold[i] = rng.Chance(1, 2)
+			eff[i] = float64(ws[i])
+			if cold[i] {
+				eff[i] *= minPct
+			}
+		}
+		info := cluster.NewClusterInfo(v2.Cluster{Name: fmt.Sprintf("c06-wrrs-%d", ci), LbType: v2.LbType(types.WeightedRoundRobin),
+			SlowStart: v2.SlowStartConfig{Mode: "duration", SlowStartDuration: &api.DurationConfig{Duration: 100 * time.Hour}, MinWeightPercent: minPct, Aggression: 1.0}})
+		hosts := make([]types.Host, n)
+		idx := map[string]int{}
+		var sum float64
+		for i := range hosts {
+			hosts[i] = mkHost(info, uniqueAddr(6), ws[i], nil)
+			idx[hosts[i].AddressString()] = i
+			if cold[i] {
+				hosts[i].SetLastHealthCheckPassTime(time.Now())
+			}
+			sum += eff[i]
+		}
+		c.Case("wrr-slowstart cfg=%d weights=%v cold=%v min_weight_percent=%v", ci, ws, cold, minPct)
+		lb := cluster.NewLoadBalancer(info, cluster.NewHostSet(hosts))
+		ctx := newLbCtx()
+		L := int(20*sum) + 50
+		if L > 4000 {
+			L = 4000
+		}
+		cnt := make([]int, n)
+		type mm struct{ max, min float64 }
+		tr := make([][]mm, n)
+		for i := range tr {
+			tr[i] = make([]mm, n)
+		}
+		bad := false
+		for t := 0; t < L && !bad; t++ {
+			h := lb.ChooseHost(ctx)
+			if h == nil {
+				c.Violation("wrr-returns-host", "C06/wrr/nil-host/slow-start", fmt.Sprintf("weights %v: nil host with all hosts healthy", ws), map[string]interface{}{"case": ci})
+				break
+			}
+			cnt[idx[h.AddressString()]]++
+			for i := 0; i < n && !bad; i++ {
+				for j := i + 1; j < n; j++ {
+					f := float64(cnt[i])/eff[i] - float64(cnt[j])/eff[j]
+					m := &tr[i][j]
+					if f > m.max {
+						m.max = f
+					}
+					if f < m.min {
+						m.min = f
+					}
+					bound := 1/eff[i] + 1/eff[j] + 1e-9
+					if m.max-m.min > bound {
+						c.Violation("wrr-bounded-lag", "C06/wrr/lag-bound-exceeded/slow-start",
+							fmt.Sprintf("weights %v, hosts in their slow-start window %v, min_weight_percent %v (effective weights %v): after %d picks hosts %d and %d have a window with |n_i/w_i-n_j/w_j| = %.6f > %.6f (counts %v)", ws, cold, minPct, eff, t+1, i, j, m.max-m.min, bound, cnt),
+							map[string]interface{}{"case": ci, "weights": ws, "cold": fmt.Sprint(cold), "effective": fmt.Sprint(eff), "picks": t + 1})
+						bad = true
+						break
+					}
+				}
+			}
+		}
+		c.Eval(1)
+		c.Count("wrr-slowstart-picks", int64(L))
+		c.Distinct(fmt.Sprintf("wrrs|n=%d|min=%v|cold=%v", n, minPct, cold))
 	}
 }
